@@ -42,8 +42,11 @@ def generate(seed, mode="c06", opts=None):
 def build(kind, p):
     import sys
 
-    if "/repo" not in sys.path:
-        sys.path.insert(0, "/repo")
+    import os
+
+    repo = os.environ.get("VERIF_REPO", "/repo")
+    if repo not in sys.path:
+        sys.path.insert(0, repo)
     import hdl21 as h
     from hdl21.prefix import µ, n as nano
     from hdl21.generators import Series, MosStack, Wrapper, CmDmGen, Balun, AcDc
